@@ -13,7 +13,7 @@ pub fn property() -> Property {
     Property {
         id: "C03",
         level: "exploration",
-        rule: "Bounded-exhaustive matrix: 4 methods (GET, HEAD, POST, PURGE) x 12 status codes x 22 Content-Length configurations (absent, valid, repeated equal, disagreeing, negative, empty, non-numeric incl. control characters, > 64 bit, ...) x 11 Transfer-Encoding configurations x {no extra bytes, extra bytes after the frame} (x 3 segmentations in thorough). The bytes after the head are chosen so that every framing interpretation (empty / chunked / length n / close) yields a different, recognisable body; the reference decision list is written from the statement. Bodiless responses (HEAD, 1xx, 204, 304) additionally declare gzip/deflate codings in three quarters of the cells. Oracle: delivered body == the body of the expected framing, or the exchange fails when the statement says it must. Followed redirects (301/302/303/307/308) x 8 Content-Length configurations: an unusable length on the redirect response fails the exchange before a second request is made. Non-trivial: every case (a decision is exercised); distinct = hash of the head + body wire + segmentation.",
+        rule: "Bounded-exhaustive matrix: 4 methods (GET, HEAD, POST, PURGE) x 12 status codes x 22 Content-Length configurations (absent, valid, repeated equal, disagreeing, negative, empty, non-numeric incl. control characters, > 64 bit, ...) x 17 Transfer-Encoding configurations (incl. HTAB as optional white space, empty list members, a later empty field line) x {no extra bytes, extra bytes after the frame} (x 3 segmentations in thorough). The bytes after the head are chosen so that every framing interpretation (empty / chunked / length n / close) yields a different, recognisable body; the reference decision list is written from the statement. Bodiless responses (HEAD, 1xx, 204, 304) additionally declare gzip/deflate codings in three quarters of the cells. Oracle: delivered body == the body of the expected framing, or the exchange fails when the statement says it must. Followed redirects (301/302/303/307/308) x 8 Content-Length configurations: an unusable length on the redirect response fails the exchange before a second request is made. Non-trivial: every case (a decision is exercised); distinct = hash of the head + body wire + segmentation.",
         assumptions: &[
             "gray combinations are executed but not judged: chunked not last in the Transfer-Encoding list, invalid Content-Length next to chunked, list-valued or sign-prefixed Content-Length, invalid Content-Length on a response that has no body anyway",
         ],
@@ -87,10 +87,18 @@ fn te_config(i: usize) -> (Vec<&'static str>, TeVerdict) {
         8 => (vec!["Transfer-Encoding: identity"], TeVerdict::NoChunked),
         9 => (vec!["Transfer-Encoding: xchunked, chunkedx"], TeVerdict::NoChunked),
         10 => (vec!["Transfer-Encoding: chunked", "Transfer-Encoding: x-foo"], TeVerdict::Gray),
+        // optional white space around list members is SP / HTAB; empty list members and empty
+        // field lines are ignored (RFC 9110 5.6.1): chunked is still the last coding
+        11 => (vec!["Transfer-Encoding:\tchunked"], TeVerdict::Chunked),
+        12 => (vec!["Transfer-Encoding: chunked\t"], TeVerdict::Chunked),
+        13 => (vec!["Transfer-Encoding: x-foo,\tchunked"], TeVerdict::Chunked),
+        14 => (vec!["Transfer-Encoding: chunked,"], TeVerdict::Chunked),
+        15 => (vec!["Transfer-Encoding: identity ,\tCHUNKED , ,"], TeVerdict::Chunked),
+        16 => (vec!["Transfer-Encoding: chunked", "Transfer-Encoding:"], TeVerdict::Chunked),
         _ => unreachable!(),
     }
 }
-const N_TE: usize = 11;
+const N_TE: usize = 17;
 
 const CHUNKED_BODY: &[u8] = b"5\r\nHELLO\r\n0\r\n\r\n";
 const EXTRA: &[u8] = b"7\r\nTRAILER\r\n0\r\n\r\n";
@@ -122,7 +130,7 @@ fn run_matrix_whole(ctx: &mut Ctx, rng: &mut Rng, index: u64) {
     run_matrix(ctx, rng, index, 0)
 }
 fn run_matrix_bytewise(ctx: &mut Ctx, rng: &mut Rng, index: u64) {
-    // quick tier: a stride through the matrix (7 is coprime to every dimension size product factor 2,3,4,11,12,19)
+    // quick tier: a stride through the matrix (7 is coprime to the matrix size 4 x 12 x 22 x 17 x 2)
     let idx = if ctx.tier == Tier::Quick { index * 7 } else { index };
     run_matrix(ctx, rng, idx % matrix_size(), 1)
 }
